@@ -201,7 +201,7 @@ func runC01(c *Ctx, r *Rec) {
 			checkLoops(c, r, "D3-loop-progress", ms[name], nil)
 		}
 	}
-	r.floor("D3-loop-progress", 1)
+	r.floorSoft("D3-loop-progress", "loops", "no loop is left in the methods this rule looks at")
 
 	// ---- D6 rebuild steps
 	if lstNorm != nil {
@@ -297,6 +297,8 @@ func checkNormaliser(c *Ctx, r *Rec, info *types.Info, fd *ast.FuncDecl, offset 
 	switch {
 	case len(viol) > 0:
 		r.fail("D2-normaliser", name, c.pos(fd.Pos()), strings.Join(viol, " | "))
+	case onlyForeign(undec):
+		r.skip("D2-normaliser", name, c.pos(fd.Pos()), strings.Join(undec, " | "))
 	case len(undec) > 0:
 		r.undecided("D2-normaliser", name, c.pos(fd.Pos()), strings.Join(undec, " | "))
 	default:
@@ -952,6 +954,9 @@ func checkEmptyOperand(c *Ctx, r *Rec, rule string, info *types.Info, ms map[str
 			// only paths that are not conditional on anything else: an empty operand reaches them
 			if len(p.Cube) > 0 {
 				continue
+			}
+			if len(symbolsOfF(p.Rets[0].B)) > 0 {
+				continue // the answer is left to something the rule does not interpret (a library function)
 			}
 			decided++
 			want := FFalse
